@@ -110,6 +110,19 @@ check("C26", "mpisim+hypothesis", "exploration",
       "deterministic simulation: Hypothesis-generated operation histories over simulated MPI ranks + simulated disk, reference-model oracle, seeded schedules",
       "DESIGN.md 3.5")
 
+check("C27", "drivercfg+hypothesis", "exploration",
+      "Weakest fit of the claimed set (the quantifier is over configurations). Unit of exploration = a history of driver "
+      "invocations in one process: pass 1 runs every row of a seeded pairwise covering array over 19 option factors; pass 2 "
+      "lets Hypothesis generate and shrink histories of 1-4 invocations (free combinations, not only array rows) with "
+      "environment events in between (output directories kept/removed/switched, extra RNG-stack entry). Oracle per "
+      "invocation: completes; return type; sample count of the result; constants bit-unchanged; point estimates carry no "
+      "residual; callbacks called as documented; early termination; dry run writes no samples; expected files per "
+      "strategy/plot/export option; nothing written without an output directory; RNG stack identical (same objects) after the call.",
+      "Trusted: the recording pass-through layer sees only Python-level file operations (matplotlib/h5py write via C; their "
+      "effects are seen through directory snapshots of the tmpfs scratch directory). No fault injection is involved.",
+      "deterministic simulation (histories of invocations with perturbed process/global environment) over a pairwise covering array + Hypothesis-generated configuration histories",
+      "DESIGN.md 3.8")
+
 ENGINES = [
     {"name": "mpisim", "path": "verifsim/sched.py", "serves_properties": ["C22", "C23", "C26"],
      "kind_free_text": "baton-passing thread-ranks running real NIFTy code behind SimComm (fake mpi4py communicator); seeded policies, eager/rendezvous per message, deadlock detection, explicit replay"},
